@@ -282,10 +282,15 @@ class Executor:
         if self.is_dropped_call(node.value):
             # the call is dropped, but its arguments are evaluated eagerly by Python: a local read there must be bound
             # (UnboundLocalError otherwise), and a name that exists nowhere is a NameError
+            fn_node = self.frame.func.node if self.frame.func is not None else None
             for n in ast.walk(node.value):
                 if isinstance(n, ast.Name) and isinstance(n.ctx, ast.Load):
                     if n.id in st.unbound and n.id in st.locals:
                         self.lookup(st, n.id, n)
+                    elif n.id not in st.locals and fn_node is not None and any(
+                            isinstance(x, ast.Name) and isinstance(x.ctx, ast.Store) and x.id == n.id for x in ast.walk(fn_node)):
+                        # a local of this function that no statement of the current path has bound
+                        raise Unsupported(f'unknown name {n.id} (line {n.lineno}): read by a dropped logging call')
             return [Outcome('normal', st)]
         self.ev(st, node.value)
         return [Outcome('normal', st)]
